@@ -25,6 +25,33 @@ pub fn build(w: &mut World) {
     let validator = w.sim.get_active_validator_with_key(&key);
     let info = w.sim.get_validator_info(validator);
     let (pool, pool_unit) = w.sim.create_one_resource_pool(w.fungibles[0].address, rule!(allow_all));
+    // accounts 1 and 2 start with stake units and pool units, account 2 also with an unstake claim
+    let f0 = w.fungibles[0].address;
+    for i in [1usize, 2] {
+        let a = w.accounts[i].address;
+        let m = ManifestBuilder::new()
+            .lock_fee_from_faucet()
+            .withdraw_from_account(a, XRD, dec!(300))
+            .take_all_from_worktop(XRD, "x")
+            .stake_validator(validator, "x")
+            .withdraw_from_account(a, f0, dec!("777.5"))
+            .take_all_from_worktop(f0, "f")
+            .call_method_with_name_lookup(pool, "contribute", |l| (l.bucket("f"),))
+            .deposit_entire_worktop(a)
+            .build();
+        w.sim.execute_manifest(m, vec![w.accounts[i].badge()]).expect_commit_success();
+    }
+    {
+        let a = w.accounts[2].address;
+        let m = ManifestBuilder::new()
+            .lock_fee_from_faucet()
+            .withdraw_from_account(a, info.stake_unit_resource, dec!(40))
+            .take_all_from_worktop(info.stake_unit_resource, "u")
+            .unstake_validator(validator, "u")
+            .deposit_entire_worktop(a)
+            .build();
+        w.sim.execute_manifest(m, vec![w.accounts[2].badge()]).expect_commit_success();
+    }
     let mut base_replay = Replay::default();
     let events = w.sim.collected_events();
     for tx in events.iter() {
